@@ -172,7 +172,7 @@ func (ss sizesim) Run(c *Case, dir string) *Outcome {
 					if berr != nil {
 						fail("begin-after-size-limit", "Begin(true) after ErrMaxSizeReached: %v", berr)
 					}
-				case <-time.After(3 * time.Second):
+				case <-time.After(12 * time.Second):
 					fail("writer-blocked-after-size-limit", "after a transaction failed with ErrMaxSizeReached the next Begin(true) does not return (writer lock not released)")
 					e.DB = nil
 				}
